@@ -95,10 +95,11 @@ class TableCacheWorld:
         with open(self.pt, "w") as f:
             f.write(new)
 
-    def _incarnate(self, idxs, write_fault, hashseed, want=None):
+    def _incarnate(self, idxs, write_fault, hashseed, want=None, pyflags=(), force_optimize=False):
         shutil.rmtree(os.path.join(self.pkg, "__pycache__"), ignore_errors=True)
-        job = {"items": [self.W[i] for i in idxs], "write_fault": write_fault, "want_outcomes": want or []}
-        r = subprocess.run([core.PY, os.path.join(core.HERE, "incarnation.py"), self.tree], input=json.dumps(job),
+        job = {"items": [self.W[i] for i in idxs], "write_fault": write_fault, "want_outcomes": want or [],
+               "force_optimize": force_optimize}
+        r = subprocess.run([core.PY] + list(pyflags) + [os.path.join(core.HERE, "incarnation.py"), self.tree], input=json.dumps(job),
                            stdout=subprocess.PIPE, stderr=subprocess.DEVNULL, text=True, timeout=900,
                            env=core.worker_env(hashseed), cwd=self.workroot)
         line = r.stdout.strip().splitlines()[-1] if r.stdout.strip() else ""
@@ -131,6 +132,7 @@ class TableCacheWorld:
             k = 4 if wf else swarm["sample"]
             inc.append({"state": st, "write_fault": wf,
                         "hashseed": rf.choice([0, 1, 2, 4242, 31337]) if swarm["vary_hashseed"] else 0,
+                        "pyflags": ["-O"] if rf.random() < 0.2 else [],
                         "items": sorted(rw.sample(self.small, k))})
         return {"world": "tablecache", "prop": "C20", "seed": seed, "swarm": swarm, "incarnations": inc}
 
@@ -147,8 +149,10 @@ class TableCacheWorld:
             self.set_state(inc["state"])
             eff = inc["state"] if inc["state"] != "keep" else "keep(" + prev + ")"
             valid_before = self._cache_valid_now()
-            r = self._incarnate(inc["items"], inc["write_fault"], inc.get("hashseed", 0))
+            r = self._incarnate(inc["items"], inc["write_fault"], inc.get("hashseed", 0), pyflags=inc.get("pyflags") or ())
             stats["incarnations"] += 1
+            if inc.get("pyflags"):
+                stats["interp_" + "".join(inc["pyflags"])] += 1
             stats["state_" + inc["state"]] += 1
             stats["items_parsed"] += len(inc["items"])
             if inc["write_fault"]:
@@ -160,7 +164,8 @@ class TableCacheWorld:
                 stats["started_with_invalid_cache"] += 1
                 if self._cache_valid_now():
                     stats["cache_repaired"] += 1
-            kinds.append("%s:%s:%s" % (eff, "ro" if inc["write_fault"] else "rw", "hs" if inc.get("hashseed", 0) else "h0"))
+            kinds.append("%s:%s:%s%s" % (eff, "ro" if inc["write_fault"] else "rw", "hs" if inc.get("hashseed", 0) else "h0",
+                                         ":" + "".join(inc["pyflags"]) if inc.get("pyflags") else ""))
             log.add("incarnation", i=i, state=inc["state"], wf=inc["write_fault"], digests=r.get("digests"),
                     rewritten=r.get("rewritten"), exc=r.get("import_exc") or r.get("ctor_exc"))
             if r.get("import_exc") or r.get("ctor_exc"):
@@ -188,6 +193,20 @@ class TableCacheWorld:
             res["events"] = log.events
         return res
 
+    def foreign_strength(self):
+        """Harness probe: how many workload items come out differently when the foreign table is bound without
+        PLY's signature check (i.e. how visible the 'stale signature, foreign tables' fault is if wrongly accepted)."""
+        self.set_state("stale_foreign")
+        try:
+            r = self._incarnate(list(range(len(self.W))), False, 0, force_optimize=True)
+        finally:
+            self.set_state("valid")
+        d = r.get("digests") or []
+        differing = [i for i, x in enumerate(d) if x != self.baseline[i]]
+        return {"status": "ok", "items": len(d), "differing": len(differing),
+                "differing_per_chunk": [sum(1 for i in differing if i % 4 == c) for c in range(4)],
+                "foreign": self.foreign_info, "ctor_exc": r.get("ctor_exc")}
+
     def sweep(self, part, nparts):
         """Fault enumeration: every cache state x {writable, unwritable} x the whole workload."""
         cells = []
@@ -195,19 +214,21 @@ class TableCacheWorld:
         for st in ["valid", "missing", "stale_benign", "stale_foreign", "old_version", "as_found"]:
             for wf in (False, True):
                 for c in range(nchunks):
-                    cells.append((st, wf, c))
+                    cells.append((st, wf, c, ()))
+            # the same state met by an optimising interpreter (python -O: __debug__ is False, asserts stripped)
+            cells.append((st, False, 0, ("-O",)))
         out = {"status": "ok", "cells": 0, "total_cells": len(cells), "keys": [], "violating": [], "stats": collections.Counter()}
-        for n, (st, wf, c) in enumerate(cells):
+        for n, (st, wf, c, pyflags) in enumerate(cells):
             if n % nparts != part:
                 continue
             idxs = [i for i in range(len(self.W)) if i % nchunks == c]
             if wf:
                 idxs = [i for i in idxs if i in set(self.small)][::6]     # every constructor regenerates (0.5 s each)
-            trace = {"world": "tablecache", "prop": "C20", "seed": 0, "swarm": {"sweep": [st, wf, c]},
-                     "incarnations": [{"state": st, "write_fault": wf, "hashseed": 0, "items": idxs}]}
+            trace = {"world": "tablecache", "prop": "C20", "seed": 0, "swarm": {"sweep": [st, wf, c, list(pyflags)]},
+                     "incarnations": [{"state": st, "write_fault": wf, "hashseed": 0, "items": idxs, "pyflags": list(pyflags)}]}
             r = self.execute(trace)
             out["cells"] += 1
-            out["keys"].append("%s:%s:%d" % (st, "ro" if wf else "rw", c))
+            out["keys"].append("%s:%s:%d%s" % (st, "ro" if wf else "rw", c, ":" + "".join(pyflags) if pyflags else ""))
             for k, v in r["stats"].items():
                 out["stats"][k] += v
             if r["status"] == "violation" and len(out["violating"]) < 2:
